@@ -11,6 +11,8 @@ import (
 	"bebopverif/internal/core"
 	"bebopverif/internal/load"
 	"bebopverif/internal/wire"
+
+	"golang.org/x/tools/go/packages"
 )
 
 func init() { register("C13", checkC13) }
@@ -32,7 +34,8 @@ func checkC13(c *core.Ctx) {
 	type facts map[string]bool
 	kinds := map[string]facts{"Enums": {}, "Structs": {}, "Messages": {}, "Unions": {}, "UnionBranch": {}}
 	// helper functions called from Validate that take part in a facet
-	defSets := definedTypeSets(info, fd)
+	defSets := definedTypeSets(p, pkg, fd)
+	setTakers := setTakingFuncs(p, pkg)
 	var scan func(n ast.Node, kind string, depth int)
 	scan = func(n ast.Node, kind string, depth int) {
 		ast.Inspect(n, func(m ast.Node) bool {
@@ -73,10 +76,27 @@ func checkC13(c *core.Ctx) {
 				}
 			case *ast.CallExpr:
 				if callee := load.Callee(info, x); callee != nil && callee.Pkg() == pkg.Types && depth < 3 {
-					if callee.Name() == "typeDefined" {
+					if _, isTaker := setTakers[callee]; isTaker {
 						kinds[kind]["undefined"] = true
 					} else if d := p.Decl(callee); d != nil && d.Body != nil && callee.Name() != "Validate" && callee.Name() != "usedTypes" {
+						// a helper that receives one of the role-carrying maps plays
+						// that role through its parameter
+						added := []types.Object{}
+						if sig, okS := callee.Type().(*types.Signature); okS {
+							for i, a := range x.Args {
+								if id, isId := ast.Unparen(a).(*ast.Ident); isId && defSets[info.ObjectOf(id)] && i < sig.Params().Len() {
+									po := types.Object(sig.Params().At(i))
+									if !defSets[po] {
+										defSets[po] = true
+										added = append(added, po)
+									}
+								}
+							}
+						}
 						scan(d.Body, kind, depth+1)
+						for _, po := range added {
+							delete(defSets, po)
+						}
 					}
 				}
 			}
@@ -137,7 +157,7 @@ func checkC13(c *core.Ctx) {
 	}
 	walkTop(fd.Body.List)
 	c.Count("validate_kind_loops", nLoops)
-	c.Floor("validate_kind_loops", 6)
+	c.Floor("validate_kind_loops", 4)
 	required := []struct{ kind, facet, why string }{
 		{"Enums", "primitive", "an enum named like a primitive"},
 		{"Enums", "dupdef", "two definitions with one name"},
@@ -209,20 +229,38 @@ func checkC13(c *core.Ctx) {
 	})
 	c.Check("R1", "Validate checks dupdef for Unions against union branch names", p.Pos(fd.Pos()), len(branchSets) > 0 && consulted,
 		"no loop compares a union's own name with the names defined by union branches: `union Shape { 1 -> struct Circle {} }` followed by `union Circle {}` declares Circle twice")
-	// typeDefined recurses into array elements, map keys and map values
-	if td := p.FuncDecl(pkg, "typeDefined"); td != nil && td.Type.Params != nil && td.Type.Params.NumFields() == 2 {
-		var params []types.Object
-		for _, f := range td.Type.Params.List {
-			for _, n := range f.Names {
-				params = append(params, info.ObjectOf(n))
-			}
-		}
-		// selector path of an expression rooted at the FieldType parameter, e.g. ".Map.Value"
+	// the definedness check (typeDefined, or whatever it is called or shaped as:
+	// the function that looks a FieldType's .Simple up in a set of names)
+	// recurses into array elements, map keys and map values
+	if dc := findDefinednessCheck(p, pkg); dc != nil {
+		td := dc.fd
 		var pathOf func(e ast.Expr) (string, bool)
 		pathOf = func(e ast.Expr) (string, bool) {
 			switch x := ast.Unparen(e).(type) {
 			case *ast.Ident:
-				return "", len(params) == 2 && info.ObjectOf(x) == params[0]
+				if info.ObjectOf(x) == dc.ft {
+					return "", true
+				}
+				// a local that names a part of the field type: key, value := ft.Map.Key, ft.Map.Value
+				var def ast.Expr
+				defs := 0
+				ast.Inspect(td.Body, func(n ast.Node) bool {
+					if as, ok := n.(*ast.AssignStmt); ok && len(as.Lhs) == len(as.Rhs) {
+						for i, l := range as.Lhs {
+							if lid, ok := l.(*ast.Ident); ok && info.ObjectOf(lid) == info.ObjectOf(x) {
+								defs++
+								def = as.Rhs[i]
+							}
+						}
+					}
+					return true
+				})
+				if defs == 1 {
+					if _, self := ast.Unparen(def).(*ast.Ident); !self {
+						return pathOf(def)
+					}
+				}
+				return "", false
 			case *ast.SelectorExpr:
 				pre, ok := pathOf(x.X)
 				return pre + "." + x.Sel.Name, ok
@@ -237,13 +275,20 @@ func checkC13(c *core.Ctx) {
 		ast.Inspect(td.Body, func(n ast.Node) bool {
 			switch x := n.(type) {
 			case *ast.CallExpr:
-				if cal := load.Callee(info, x); cal != nil && types.Object(cal) == info.ObjectOf(td.Name) && len(x.Args) == 2 {
-					if pth, ok := pathOf(x.Args[0]); ok {
-						recurse[pth] = true
+				if cal := load.Callee(info, x); cal != nil && types.Object(cal) == info.ObjectOf(td.Name) {
+					// function form f(ft.X, set) or method form ft.X.f(set)
+					if td.Recv == nil && len(x.Args) >= 1 {
+						if pth, ok := pathOf(x.Args[0]); ok {
+							recurse[pth] = true
+						}
+					} else if sel, isSel := ast.Unparen(x.Fun).(*ast.SelectorExpr); isSel {
+						if pth, ok := pathOf(sel.X); ok {
+							recurse[pth] = true
+						}
 					}
 				}
 			case *ast.IndexExpr:
-				if id, ok := ast.Unparen(x.X).(*ast.Ident); ok && len(params) == 2 && info.ObjectOf(id) == params[1] {
+				if id, ok := ast.Unparen(x.X).(*ast.Ident); ok && info.ObjectOf(id) == dc.set {
 					if pth, ok := pathOf(x.Index); ok {
 						lookup[pth] = true
 					}
@@ -256,7 +301,7 @@ func checkC13(c *core.Ctx) {
 		c.Check("R1", "typeDefined descends into map values", p.Pos(td.Pos()), recurse[".Map.Value"], "no recursive call on the map value type")
 		c.Check("R1", "typeDefined checks simple names", p.Pos(td.Pos()), lookup[".Simple"], "the simple type name is never looked up in the set of defined types")
 	} else {
-		c.Undecide("typeDefined not found")
+		c.Undecide("no function looks a field type's name up in a set of defined names (typeDefined not found)")
 	}
 	definedSetHoldsTypes(c, p, fd)
 
@@ -429,7 +474,29 @@ func checkC13(c *core.Ctx) {
 		hasDefault := false
 		armsTestKind := true
 		nArms := 0
-		ast.Inspect(f.Body, func(m ast.Node) bool {
+		// the type dispatch is a tagless switch in readConst or in a helper it calls
+		var dispatch *ast.SwitchStmt
+		for _, d := range declClosure(p, pkg, f, 2) {
+			ast.Inspect(d.Body, func(m ast.Node) bool {
+				sw, is := m.(*ast.SwitchStmt)
+				if !is || sw.Tag != nil || dispatch != nil {
+					return true
+				}
+				for _, cl := range sw.Body.List {
+					for _, e := range cl.(*ast.CaseClause).List {
+						if call, isC := ast.Unparen(e).(*ast.CallExpr); isC && strings.HasSuffix(wire.Canon(call.Fun), "Primitive") {
+							dispatch = sw
+						}
+					}
+				}
+				return dispatch == nil
+			})
+		}
+		scanRoot := ast.Node(f.Body)
+		if dispatch != nil {
+			scanRoot = dispatch
+		}
+		ast.Inspect(scanRoot, func(m ast.Node) bool {
 			sw, is := m.(*ast.SwitchStmt)
 			if !is || sw.Tag != nil {
 				return true
@@ -451,10 +518,18 @@ func checkC13(c *core.Ctx) {
 					}
 				}
 				if be, isB := ast.Unparen(cc.List[0]).(*ast.BinaryExpr); isB && be.Op == token.EQL {
+					// <the const's type name> == "<primitive>": a field or a parameter holding it
+					lhsOK := false
 					if sel, isS := ast.Unparen(be.X).(*ast.SelectorExpr); isS && sel.Sel.Name == "SimpleType" {
-						if tv := info.Types[be.Y]; tv.Value != nil {
-							covered[strings.Trim(tv.Value.ExactString(), `"`)] = true
+						lhsOK = true
+					}
+					if id, isId := ast.Unparen(be.X).(*ast.Ident); isId {
+						if o := info.ObjectOf(id); o != nil && o.Type().String() == "string" {
+							lhsOK = true
 						}
+					}
+					if tv := info.Types[be.Y]; lhsOK && tv.Value != nil {
+						covered[strings.Trim(tv.Value.ExactString(), `"`)] = true
 					}
 				}
 				testsKind := false
@@ -646,7 +721,7 @@ func endsInReturnList(stmts []ast.Stmt) bool {
 func definedSetHoldsTypes(c *core.Ctx, p *load.Prog, fd *ast.FuncDecl) {
 	pkg := p.Bebop()
 	info := pkg.TypesInfo
-	sets := definedTypeSets(info, fd)
+	sets := definedTypeSets(p, pkg, fd)
 	if len(sets) == 0 {
 		c.Undecide("Validate: no set of defined names is passed to typeDefined")
 		return
@@ -734,8 +809,102 @@ func definedSetHoldsTypes(c *core.Ctx, p *load.Prog, fd *ast.FuncDecl) {
 		}
 		return true
 	})
+	// writes made by a helper that receives the set: the key it stores is one
+	// of its parameters (possibly trimmed), traced at every call site in Validate
+	ast.Inspect(fd.Body, func(nd ast.Node) bool {
+		call, ok := nd.(*ast.CallExpr)
+		if !ok {
+			return true
+		}
+		cal := load.Callee(info, call)
+		if cal == nil || cal.Pkg() != pkg.Types {
+			return true
+		}
+		hd := p.Decl(cal)
+		sig, _ := cal.Type().(*types.Signature)
+		if hd == nil || hd.Body == nil || sig == nil {
+			return true
+		}
+		setParam := -1
+		for i, a := range call.Args {
+			if id, ok := ast.Unparen(a).(*ast.Ident); ok && sets[info.ObjectOf(id)] && i < sig.Params().Len() {
+				setParam = i
+			}
+		}
+		if setParam < 0 {
+			return true
+		}
+		po := types.Object(sig.Params().At(setParam))
+		// local definitions inside the helper
+		hdef := map[types.Object]ast.Expr{}
+		ast.Inspect(hd.Body, func(k ast.Node) bool {
+			if as, ok := k.(*ast.AssignStmt); ok && as.Tok == token.DEFINE && len(as.Lhs) == len(as.Rhs) {
+				for i, l := range as.Lhs {
+					if id, ok := l.(*ast.Ident); ok {
+						hdef[info.ObjectOf(id)] = as.Rhs[i]
+					}
+				}
+			}
+			return true
+		})
+		var argOf func(e ast.Expr, depth int) ast.Expr
+		argOf = func(e ast.Expr, depth int) ast.Expr {
+			var res ast.Expr
+			ast.Inspect(e, func(k ast.Node) bool {
+				if res != nil {
+					return false
+				}
+				id, ok := k.(*ast.Ident)
+				if !ok {
+					return true
+				}
+				o := info.ObjectOf(id)
+				for i := 0; i < sig.Params().Len(); i++ {
+					if types.Object(sig.Params().At(i)) == o && i < len(call.Args) && i != setParam {
+						res = call.Args[i]
+					}
+				}
+				if d, ok := hdef[o]; ok && res == nil && depth < 3 {
+					res = argOf(d, depth+1)
+				}
+				return true
+			})
+			return res
+		}
+		ast.Inspect(hd.Body, func(k ast.Node) bool {
+			as, ok := k.(*ast.AssignStmt)
+			if !ok {
+				return true
+			}
+			for _, l := range as.Lhs {
+				ix, ok := l.(*ast.IndexExpr)
+				if !ok {
+					continue
+				}
+				id, ok := ast.Unparen(ix.X).(*ast.Ident)
+				if !ok || info.ObjectOf(id) != po {
+					continue
+				}
+				n++
+				arg := argOf(ix.Index, 0)
+				coll := ""
+				if arg != nil {
+					coll = origin(arg, 0)
+				}
+				if coll == "" {
+					c.Undecide("Validate: the key %s stored by %s cannot be traced to a collection at %s", wire.Canon(ix.Index), cal.Name(), p.Pos(call.Pos()))
+					continue
+				}
+				key := fmt.Sprintf("Validate: names stored in the defined-type set come from types (via %s <- %s)", cal.Name(), coll)
+				c.Check("R1c", key, p.Pos(call.Pos()), allowed(coll),
+					fmt.Sprintf("%s stores a name taken from %s in the set the definedness check consults: a field whose type is such a name passes as defined", cal.Name(), coll))
+			}
+			return true
+		})
+		return true
+	})
 	c.Count("defined_set_writes", n)
-	c.Floor("defined_set_writes", 5)
+	c.Floor("defined_set_writes", 2)
 }
 
 
@@ -787,14 +956,152 @@ func collectionName(info *types.Info, e ast.Expr) string {
 }
 
 
-// definedTypeSets: the map variables of fd that reach typeDefined's second
-// argument, closed under `a := b` aliasing.
-func definedTypeSets(info *types.Info, fd *ast.FuncDecl) map[types.Object]bool {
+// definednessCheck: the function that decides whether a field type's name is
+// defined: it takes a FieldType (parameter or receiver) and a set of names and
+// indexes the set with <ft>.Simple.
+type definednessCheck struct {
+	fd  *ast.FuncDecl
+	fn  *types.Func
+	ft  types.Object
+	set types.Object
+}
+
+func findDefinednessCheck(p *load.Prog, pkg *packages.Package) *definednessCheck {
+	info := pkg.TypesInfo
+	var best *definednessCheck
+	for fn, fd := range p.AllDecls() {
+		if p.Owner(fn) != pkg || fd.Body == nil {
+			continue
+		}
+		var fts, sets []types.Object
+		collect := func(fl *ast.FieldList) {
+			if fl == nil {
+				return
+			}
+			for _, f := range fl.List {
+				for _, n := range f.Names {
+					o := info.ObjectOf(n)
+					if o == nil {
+						continue
+					}
+					if typeBaseName(o.Type()) == "FieldType" {
+						fts = append(fts, o)
+					}
+					if m, ok := o.Type().Underlying().(*types.Map); ok {
+						if b, isB := m.Key().Underlying().(*types.Basic); isB && b.Kind() == types.String {
+							sets = append(sets, o)
+						}
+					}
+				}
+			}
+		}
+		collect(fd.Recv)
+		collect(fd.Type.Params)
+		if len(fts) == 0 || len(sets) == 0 {
+			continue
+		}
+		var hit *definednessCheck
+		ast.Inspect(fd.Body, func(n ast.Node) bool {
+			ix, ok := n.(*ast.IndexExpr)
+			if !ok || hit != nil {
+				return true
+			}
+			id, ok := ast.Unparen(ix.X).(*ast.Ident)
+			if !ok {
+				return true
+			}
+			sel, ok := ast.Unparen(ix.Index).(*ast.SelectorExpr)
+			if !ok || sel.Sel.Name != "Simple" {
+				return true
+			}
+			root, ok := ast.Unparen(sel.X).(*ast.Ident)
+			if !ok {
+				return true
+			}
+			for _, so := range sets {
+				for _, fo := range fts {
+					if info.ObjectOf(id) == so && info.ObjectOf(root) == fo {
+						hit = &definednessCheck{fd: fd, fn: fn, ft: fo, set: so}
+					}
+				}
+			}
+			return true
+		})
+		if hit != nil && (best == nil || hit.fd.Name.Name < best.fd.Name.Name) {
+			best = hit
+		}
+	}
+	return best
+}
+
+// setTakingFuncs: the definedness check and the helpers that hand a parameter
+// of theirs to it; the value is the index of that parameter.
+func setTakingFuncs(p *load.Prog, pkg *packages.Package) map[*types.Func]int {
+	info := pkg.TypesInfo
+	out := map[*types.Func]int{}
+	dc := findDefinednessCheck(p, pkg)
+	if dc == nil {
+		return out
+	}
+	paramIndex := func(fn *types.Func, o types.Object) int {
+		sig := fn.Type().(*types.Signature)
+		for i := 0; i < sig.Params().Len(); i++ {
+			if types.Object(sig.Params().At(i)) == o {
+				return i
+			}
+		}
+		return -1
+	}
+	if i := paramIndex(dc.fn, dc.set); i >= 0 {
+		out[dc.fn] = i
+	}
+	for round := 0; round < 2; round++ {
+		for fn, fd := range p.AllDecls() {
+			if p.Owner(fn) != pkg || fd.Body == nil {
+				continue
+			}
+			if _, done := out[fn]; done {
+				continue
+			}
+			ast.Inspect(fd.Body, func(n ast.Node) bool {
+				call, ok := n.(*ast.CallExpr)
+				if !ok {
+					return true
+				}
+				cal := load.Callee(info, call)
+				if cal == nil {
+					return true
+				}
+				at, isTaker := out[cal]
+				if !isTaker || at >= len(call.Args) {
+					return true
+				}
+				if id, ok := ast.Unparen(call.Args[at]).(*ast.Ident); ok {
+					if i := paramIndex(fn, info.ObjectOf(id)); i >= 0 {
+						out[fn] = i
+					}
+				}
+				return true
+			})
+		}
+	}
+	return out
+}
+
+// definedTypeSets: the map variables of fd that are handed to the definedness
+// check (directly or through a helper), closed under `a := b` aliasing.
+func definedTypeSets(p *load.Prog, pkg *packages.Package, fd *ast.FuncDecl) map[types.Object]bool {
+	info := pkg.TypesInfo
+	takers := setTakingFuncs(p, pkg)
 	sets := map[types.Object]bool{}
 	ast.Inspect(fd.Body, func(n ast.Node) bool {
-		if call, ok := n.(*ast.CallExpr); ok && wire.Canon(call.Fun) == "typeDefined" && len(call.Args) == 2 {
-			if id, ok := ast.Unparen(call.Args[1]).(*ast.Ident); ok {
-				sets[info.ObjectOf(id)] = true
+		if call, ok := n.(*ast.CallExpr); ok {
+			if cal := load.Callee(info, call); cal != nil {
+				if at, isTaker := takers[cal]; isTaker && at < len(call.Args) {
+					if id, ok := ast.Unparen(call.Args[at]).(*ast.Ident); ok {
+						sets[info.ObjectOf(id)] = true
+					}
+				}
 			}
 		}
 		return true
